@@ -138,9 +138,18 @@ func runC06(c *Ctx) {
 		// loops containing IsHigherPriority calls
 		var docStore, basicStore *Effect
 		var docCall, basicCall *E
-		for _, site := range callsTo(nmr, ihp) {
-			call := s.Env[site.(ssa.Value)]
-			l := innermostLoop(loops, site.Block())
+		for ci := range s.Effects {
+			cef := &s.Effects[ci]
+			if cef.Kind != "call" || cef.Call.Aux != calleeName(ihp) || len(cef.Call.Args) < 2 {
+				continue
+			}
+			call := cef.Call
+			site := cef.Ins
+			blk := topBlockOf(cef.Act, cef.Ins)
+			var l *Loop
+			if blk != nil {
+				l = innermostLoop(loops, blk)
+			}
 			if call == nil || l == nil {
 				c.Fail("C06.R1", "NewMatchingResult: selection loop", site.Pos(), "UNDECIDED: selection not inside a loop")
 				continue
@@ -151,20 +160,28 @@ func runC06(c *Ctx) {
 				coll = s.Env[ro.Coll]
 			}
 			cand := call.Args[0]
-			// which store does this selection feed?
+			// which store does this selection feed?  The admission condition is the
+			// condition under which the stored value is the candidate.
 			for i := range s.Effects {
 				ef := &s.Effects[i]
-				if ef.Kind == "store" && ef.Val == cand && ef.Addr.Op == "faddr" {
-					switch ef.Addr.Aux {
-					case "DocumentRule":
-						docStore, docCall = ef, call
-						c.Check(filtered(coll, ps[1]), "C06.R1", "NewMatchingResult: document-rule loop ranges over filtered sourceRules", site.Pos(),
-							"collection = rewriteFilter(badfilterFilter(sourceRules))", "the loop ranges over "+clip(u.Show(coll), 160)+", not over the filtered referrer rules")
-					case "BasicRule":
-						basicStore, basicCall = ef, call
-						c.Check(filtered(coll, ps[0]), "C06.R1", "NewMatchingResult: basic-rule loop ranges over filtered rules", site.Pos(),
-							"collection = rewriteFilter(badfilterFilter(rules))", "the loop ranges over "+clip(u.Show(coll), 160)+", not over the filtered request rules")
-					}
+				if ef.Kind != "store" || ef.Addr.Op != "faddr" {
+					continue
+				}
+				lc, isLeaf := u.Leaves(ef.Val)[cand]
+				if !isLeaf {
+					continue
+				}
+				adm := *ef
+				adm.Cond = u.bdd.And(ef.Cond, lc)
+				switch ef.Addr.Aux {
+				case "DocumentRule":
+					docStore, docCall = &adm, call
+					c.Check(filtered(coll, ps[1]), "C06.R1", "NewMatchingResult: document-rule loop ranges over filtered sourceRules", site.Pos(),
+						"collection = rewriteFilter(badfilterFilter(sourceRules))", "the loop ranges over "+clip(u.Show(coll), 160)+", not over the filtered referrer rules")
+				case "BasicRule":
+					basicStore, basicCall = &adm, call
+					c.Check(filtered(coll, ps[0]), "C06.R1", "NewMatchingResult: basic-rule loop ranges over filtered rules", site.Pos(),
+						"collection = rewriteFilter(badfilterFilter(rules))", "the loop ranges over "+clip(u.Show(coll), 160)+", not over the filtered request rules")
 				}
 			}
 		}
@@ -305,9 +322,17 @@ func runC06(c *Ctx) {
 		ps := g.ParamExprs(gdb)
 		badF, rewF := filterRoles(c, gdb, K["OptionBadfilter"])
 		loops := loopsOf(gdb)
-		for _, site := range callsTo(gdb, ihp) {
-			call := s.Env[site.(ssa.Value)]
-			l := innermostLoop(loops, site.Block())
+		for ci := range s.Effects {
+			cef := &s.Effects[ci]
+			if cef.Kind != "call" || cef.Call.Aux != calleeName(ihp) || len(cef.Call.Args) < 2 {
+				continue
+			}
+			call := cef.Call
+			site := cef.Ins
+			var l *Loop
+			if blk := topBlockOf(cef.Act, cef.Ins); blk != nil {
+				l = innermostLoop(loops, blk)
+			}
 			if call == nil || l == nil {
 				c.Fail("C06.R4", "GetDNSBasicRule: selection loop", site.Pos(), "UNDECIDED: selection not inside a loop")
 				continue
